@@ -170,15 +170,26 @@ def run(prog, rep, tier, repo):
             elif bad:
                 rep.viol('max-shift', key, 'softmax exponentiates %s directly: for entries above ~709 exp overflows and the result is inf/inf = NaN; '
                          'the argument must be (element - max(x))' % show_expr(bad[0][2]), site_of(pdb.bodies[k]))
+            elif any(_finite_seed(e[2][3]) is not None for e in exps):
+                c_ = [_finite_seed(e[2][3]) for e in exps if _finite_seed(e[2][3]) is not None][0]
+                rep.viol('max-shift', key, 'the shift is a max-reduction seeded with the finite constant %r, i.e. max(%r, max x): when every entry is below %r the '
+                         'exponentials are exp(x_i - %r), which underflow to 0/0 = NaN for entries below about %g and lose shift invariance before that' % (
+                             c_, c_, c_, c_, c_ - 745.0), site_of(pdb.bodies[k]))
             else:
                 rep.ok('max-shift', key, 'every exp argument is element - max: %s' % show_expr(ret)[:200])
             # normalisation
-            okn = len(ret) == 1
-            if okn:
-                r = next(iter(ret))
-                okn = r[0] == 'b' and r[1] == 'Div' and r[2][0] == 'm' and r[2][1] == 'exp' and r[3][0] == 'red' and r[3][1] == 'sum' \
+            def is_norm(r):
+                return r[0] == 'b' and r[1] == 'Div' and r[2][0] == 'm' and r[2][1] == 'exp' and r[3][0] == 'red' and r[3][1] == 'sum' \
                     and r[3][2] == frozenset([r[2]])
-            if okn:
+            okn = len(ret) == 1 and is_norm(next(iter(ret)))
+            norms = [r for r in ret if is_norm(r)]
+            # in-place normalisation (out[k] /= s over a buffer of exp values): the weak update of the abstraction keeps the
+            # pre-division value e as an alternative; that is an imprecision of the engine, not a finding
+            weak = bool(norms) and all(is_norm(r) or any(r == nr[2] for nr in norms) for r in ret)
+            if not okn and weak:
+                rep.undecided('normalised', key2, 'in-place normalisation: every alternative is e_i / sum(e) or the pre-division e_i (weak update); '
+                              'that every element is divided is not decided', site_of(pdb.bodies[k]), proof=False)
+            elif okn:
                 rep.ok('normalised', key2, 'output_i = e_i / sum(e) with e = %s' % show_expr(next(iter(ret))[2])[:120])
                 rep.sample('softmax => %s' % show_expr(ret)[:200])
             else:
@@ -237,6 +248,16 @@ def _is_max_reduction(e):
         elif x[0] == 'm' or x[0] == 'b' or x[0] == 'neg':
             return False
     return has_max
+
+
+def _finite_seed(e):
+    """a finite literal among the alternatives of a max-reduction: the reduction is then max(c, max x), which exceeds max x
+    whenever every element is below c (NaN and -inf are neutral for f64::max, an element of the input is fine)"""
+    import math as _m
+    for x in e[2]:
+        if isinstance(x, tuple) and x[0] == 'c' and isinstance(x[1], float) and _m.isfinite(x[1]):
+            return x[1]
+    return None
 
 
 def _is_shifted(arg):
